@@ -112,6 +112,11 @@ def h_params(ctx, cfg):
         ok = list(a.parameters.items()) == want and len(a) == po + pk + va + ko + vk
         n += 1
         ctx.prove("parameters_in_signature_order_with_kinds_and_len", z3.BoolVal(ok), detail=repr(a))
+    # names CPython itself binds although no source can spell them: a comprehension's implicit iterator `.0`; names are taken as they are
+    for names in ((".0",), (".0", "x"), ("if",), ("\u00e9", "\u4e16"), ("_", "__")):
+        a = Args((), names, None, (), None)
+        got = list(a.parameters.items())
+        ctx.prove("every_name_is_a_parameter_whatever_it_looks_like", z3.BoolVal(got == [(x, K.POSITIONAL_OR_KEYWORD) for x in names] and len(a) == len(names)), detail="%r -> %r" % (names, got))
 
 
 @harness("args.args_to_parameters.structure", props=["C04"], functions=["code_data._args.args_to_parameters"], configs="any",
